@@ -242,6 +242,15 @@ void Mul::dict_add_term_new(const Ptr<RCP<const Number>> &coef,
             } else if (down_cast<const Integer &>(*(it->second)).is_zero()) {
                 d.erase(it);
                 return;
+            } else if (is_a<Pow>(*it->first)) {
+                // (b**e)**n == b**(e*n) for an integer n: a Pow key must not
+                // keep an Integer exponent
+                RCP<const Pow> p = rcp_static_cast<const Pow>(it->first);
+                RCP<const Basic> n = it->second;
+                d.erase(it);
+                Mul::dict_add_term_new(coef, d, mul(p->get_exp(), n),
+                                       p->get_base());
+                return;
             }
         } else if (is_a<Rational>(*it->second)) {
             if (is_a<Integer>(*t) or is_a<Rational>(*t)) {
